@@ -1288,12 +1288,13 @@ Proof.
   - exact (Permutation_NoDup P Hnd).
 Qed.
 
-Lemma moveaxis_single n a b : np_moveaxis_ok n (AxOne a) (AxOne b) = true ->
-  moveaxis_to_transpose (Z.of_nat n) (AxOne a) (AxOne b) = Some (np_moveaxis_order n (AxOne a) (AxOne b))
-  /\ is_permb n (np_moveaxis_order n (AxOne a) (AxOne b)) = true.
+Lemma moveaxis_single n sa da : length (axes_of sa) = 1%nat -> np_moveaxis_ok n sa da = true ->
+  moveaxis_to_transpose (Z.of_nat n) sa da = Some (np_moveaxis_order n sa da)
+  /\ is_permb n (np_moveaxis_order n sa da) = true.
 Proof.
-  intros Hok. apply moveaxis_of_check; [assumption|]. intros _ _. cbn [axes_of map].
-  unfold np_moveaxis_ok in Hok. cbv zeta in Hok. rewrite !andb_true_iff in Hok. destruct Hok as [[[[R1 R2] _] _] _].
-  cbn [axes_of] in R1, R2.
-  apply moveaxis_single_check; [apply (norm_range _ _ R1) | apply (norm_range _ _ R2)]; now left.
+  intros H1 Hok. apply moveaxis_of_check; [assumption|]. intros _ _.
+  unfold np_moveaxis_ok in Hok. cbv zeta in Hok. rewrite !andb_true_iff in Hok. destruct Hok as [[[[R1 R2] HL] _] _].
+  apply Nat.eqb_eq in HL. rewrite H1 in HL.
+  destruct (axes_of sa) as [|a [|? ?]]; try discriminate. destruct (axes_of da) as [|b [|? ?]]; try discriminate.
+  cbn [map]. apply moveaxis_single_check; [apply (norm_range _ _ R1) | apply (norm_range _ _ R2)]; now left.
 Qed.
